@@ -302,6 +302,7 @@ func TestVerifC19(t *testing.T) {
 	seed, _ := strconv.ParseInt(os.Getenv("VERIF_SEED"), 10, 64)
 	nrand, _ := strconv.Atoi(os.Getenv("VERIF_N"))
 	rep := &simReport{Extra: map[string]any{}}
+	simOnStall("c19_result.json", rep)
 	defer simWriteReport("c19_result.json", rep)
 
 	workload := func(e *c19Env) {
@@ -313,7 +314,7 @@ func TestVerifC19(t *testing.T) {
 	}
 	scenario := func(name string, queue int, prep func(e *c19Env, bus *hookBus), during func(e *c19Env, bus *hookBus) time.Time, opts ...Option) []string {
 		var hits []string
-		synctest.Test(t, func(t *testing.T) {
+		verifsim.Bubble(t, func(t *testing.T) {
 			base := runtime.NumGoroutine()
 			bus := newHookBus()
 			bus.install()
@@ -527,6 +528,7 @@ func TestVerifC20(t *testing.T) {
 		t.Fatal(err)
 	}
 	rep := &simReport{Extra: map[string]any{}}
+	simOnStall("c20_result.json", rep)
 	defer func() {
 		rep.Events = ndj.Count()
 		ndj.Close()
@@ -542,7 +544,7 @@ func TestVerifC20(t *testing.T) {
 		jitter          int64
 	}
 	run := func(p params) {
-		synctest.Test(t, func(t *testing.T) {
+		verifsim.Bubble(t, func(t *testing.T) {
 			tr := &verifsim.Trace{}
 			cl := verifsim.NewCluster(tr)
 			cl.AddServer("ms")
@@ -674,7 +676,7 @@ func TestVerifC20(t *testing.T) {
 	// Go map order, so the scenario is repeated: in about half of the runs the held server is waited for first.)
 	for rep2 := 0; rep2 < 10; rep2++ {
 		name := fmt.Sprintf("stale-error/%d", rep2)
-		synctest.Test(t, func(t *testing.T) {
+		verifsim.Bubble(t, func(t *testing.T) {
 			tr := &verifsim.Trace{}
 			cl := verifsim.NewCluster(tr)
 			for _, a := range []string{"ms", "rs1", "rs2"} {
@@ -788,7 +790,7 @@ func TestVerifC20(t *testing.T) {
 	for _, variant := range []string{"split", "split-then-merge", "move-away-and-back"} {
 		for _, queue := range []int{1, 3} {
 			name := fmt.Sprintf("replace/%s/q=%d", variant, queue)
-			synctest.Test(t, func(t *testing.T) {
+			verifsim.Bubble(t, func(t *testing.T) {
 				tr := &verifsim.Trace{}
 				cl := verifsim.NewCluster(tr)
 				cl.AddServer("ms")
